@@ -444,11 +444,27 @@ pub fn run_lines(lines: &[String], oracles: bool) -> RunResult {
                             rr.cut_nonquiescent = true;
                             n_entered_at_abort += 1;
                         }
-                        let (pm_text, ps_text, local) = dispatcher::with_default(&sys.dispatch, || {
+                        let (pm_text, ps_text, local, pm_api, ps_api) = dispatcher::with_default(&sys.dispatch, || {
                             let pm = recv.persist_metadata();
                             let (ps, local) = recv.persist();
-                            (serde_json::to_string(&pm).unwrap(), serde_json::to_string(&ps).unwrap(), local)
+                            // the same state seen through the accessors (len / is_empty / iter)
+                            let mut rows: Vec<(u64, Site)> = pm.iter().map(|(id, d)| (id, Site::from_real(d))).collect();
+                            rows.sort_by_key(|r| r.0);
+                            let pm_api = (pm.len(), pm.is_empty(), format!("pm {}", wire::meta_tok(&rows)));
+                            let ps_api = (ps.len(), ps.is_empty());
+                            (serde_json::to_string(&pm).unwrap(), serde_json::to_string(&ps).unwrap(), local, pm_api, ps_api)
                         });
+                        {
+                            let n_pm = pm_line(&pm_text);
+                            let n_sites = json::parse(&pm_text).ok().and_then(|t| wire::meta_rows(&t)).map_or(0, |r| r.len());
+                            let n_spans = json::parse(&ps_text).ok().and_then(|t| wire::spans_rows(&t)).map_or(0, |r| r.len());
+                            if pm_api.2 != n_pm || pm_api.0 != n_sites || pm_api.1 != (n_sites == 0) {
+                                fail!("C09 persisted metadata read through iter()/len()/is_empty() (`{}`, {}, {}) differs from its encoding `{n_pm}`", pm_api.2, pm_api.0, pm_api.1);
+                            }
+                            if ps_api.0 != n_spans || ps_api.1 != (n_spans == 0) {
+                                fail!("C02 persisted spans report len {} / is_empty {} but encode {n_spans} spans", ps_api.0, ps_api.1);
+                            }
+                        }
                         {
                             // C08: the host spans this chain created and has not closed are exactly the
                             // ones the local span map still refers to (nothing leaked, nothing stale)
